@@ -22,6 +22,7 @@ import wpull.protocol.abstract.client as wabs
 import wpull.protocol.abstract.stream as wastream
 import wpull.protocol.http.web as wweb
 from wpull.network.pool import ConnectionPool
+from wpull.proxy.client import HTTPProxyConnectionPool
 from wpull.network.connection import Connection, SSLConnection
 from wpull.network.dns import Resolver
 from wpull.errors import NetworkError, ProtocolError
@@ -42,7 +43,7 @@ PROBES = {
     'C16': ['redirect.301', 'redirect.302', 'redirect.303', 'redirect.307', 'redirect.308', 'cross_host_redirect', 'cross_scheme_redirect',
             'repeat_redirect_cross_host', 'userinfo_url', 'idn_host', 'ipv6_host', 'ipv4_host', 'nondefault_port', 'cookie_set',
             'cookie_sent', 'foreign_domain_cookie', 'auth_challenge', 'auth_sent', 'referer_https_to_http', 'encoded_path',
-            'relative_location', 'keepalive_reuse'],
+            'relative_location', 'keepalive_reuse', 'proxy', 'proxy_absolute_form', 'proxy_connect'],
     'C18': ['redirect_cycle', 'unbounded_chain', 'limit_reached', 'perpetual_401', 'missing_location', 'bad_location', 'max_redirect_0',
             'server_5xx', 'reset', 'stall_timeout', 'auth_retry'],
 }
@@ -175,6 +176,44 @@ class _Handler:
         conn.finish()
 
 
+class _ProxyHandler:
+    """HTTP proxy peer: absolute-form requests for http, CONNECT tunnels for https."""
+
+    def __init__(self, h, conn):
+        self.h = h
+        self.buf = b''
+        self.tunnel_oi = None
+
+    def on_data(self, conn, data):
+        h = self.h
+        self.buf += data
+        while b'\r\n\r\n' in self.buf:
+            raw, self.buf = self.buf.split(b'\r\n\r\n', 1)
+            line = raw.split(b'\r\n')[0]
+            if self.tunnel_oi is None and line.startswith(b'CONNECT '):
+                hp = line.split(b' ')[1].decode('latin-1')
+                oi = None
+                for i, (scheme, host, host_hdr, ip, port) in enumerate(ORIGINS):
+                    if hp.lower() == ('%s:%d' % (host_hdr, port)).lower() and scheme == 'https':
+                        oi = i
+                h.connects.append(hp)
+                h.r.probes['proxy_connect'] += 1
+                if oi is None:
+                    h.r.violate('C16', 'wrong-origin', 'connect-target', 'CONNECT %r names no https origin of the site' % hp)
+                    conn.send(b'HTTP/1.1 502 Bad Gateway\r\nContent-Length: 0\r\n\r\n', mode=0)
+                    continue
+                self.tunnel_oi = oi
+                conn.send(b'HTTP/1.1 200 Connection established\r\n\r\n', mode=0)
+                continue
+            if self.tunnel_oi is not None:
+                h.on_request(conn, self.tunnel_oi, raw + b'\r\n\r\n', proxied='tunnel')
+            else:
+                h.on_request(conn, None, raw + b'\r\n\r\n', proxied='plain')
+
+    def on_eof(self, conn):
+        conn.finish()
+
+
 class H:
     pass
 
@@ -208,6 +247,7 @@ def run(tape, prop, tier):
     max_redirect = tape.choice((20, 5, 2, 1, 0), 'max_redirect') if adversarial else tape.choice((20, 5, 3), 'max_redirect')
     use_cookies = tape.chance(3, 4, 'cookies')
     opt_login = ('optuser', 'optpass') if tape.chance(1, 4, 'opt_login') else None
+    use_proxy = prop == 'C16' and tape.chance(1, 4, 'use_proxy')
     start = Target(tape)
     if tape.chance(1, 4, 'userinfo'):
         start.userinfo = (tape.choice(('user', 'us%40er', 'u%0D%0Ax', 'caf%C3%A9'), 'ui.user'), tape.choice(('pw', 'p%3Aw', 'p%0Aw'), 'ui.pw'))
@@ -221,7 +261,7 @@ def run(tape, prop, tier):
     if adversarial:
         strategy = tape.choice(('cycle', 'chain', 'mixed', 'missing_location', 'bad_location', 'perpetual_401', 'perpetual_5xx',
                                 'reset', 'stall', 'auth_redirect_alternate'), 'strategy')
-    workload = {'start': start_url, 'max_redirect': max_redirect, 'cookies': use_cookies, 'opt_login': bool(opt_login),
+    workload = {'start': start_url, 'max_redirect': max_redirect, 'cookies': use_cookies, 'opt_login': bool(opt_login), 'proxy': use_proxy,
                 'referrer': referrer, 'strategy': strategy, 'hops': []}
     r.sub = 'adversarial:' + strategy if adversarial else 'normal'
     h = H()
@@ -237,6 +277,9 @@ def run(tape, prop, tier):
     h.chain_len = tape.between(0, 4, 'chain.len') if not adversarial else 0
     h.done = False
     h.auth_retries = {}
+    h.connects = []
+    if use_proxy:
+        r.probes['proxy'] += 1
     h.consecutive_auth = 0
     h.last_sched = None
     if start.userinfo:
@@ -254,11 +297,28 @@ def run(tape, prop, tier):
         if close:
             conn.finish()
 
-    def on_request(conn, oi, raw):
+    def on_request(conn, oi, raw, proxied=None):
         method, target, version, fields, errors = parse_request(raw)
         exp = h.expected
         hop = h.hops
         h.hops += 1
+        if proxied == 'plain':
+            # request to a proxy without tunnel: the target must be the absolute URL
+            r.probes['proxy_absolute_form'] += 1
+            m = re.match(r'^http://([^/]+)(/.*)$', target or '')
+            if not m:
+                r.violate('C16', 'wrong-target', 'origin-form-to-proxy', 'hop %d: request to the proxy has target %r, expected an absolute http URL' % (hop, target))
+                oi = exp.origin if exp is not None else 0
+            else:
+                hostport, target = m.group(1), m.group(2)
+                oi = None
+                for i, (scheme, host, host_hdr, ip, port) in enumerate(ORIGINS):
+                    hp = host_hdr if port == 80 else '%s:%d' % (host_hdr, port)
+                    if scheme == 'http' and hostport.lower() == hp.lower():
+                        oi = i
+                if oi is None:
+                    r.violate('C16', 'wrong-origin', 'absolute-url-host', 'hop %d: absolute URL names %r which is no http origin of the site' % (hop, hostport))
+                    oi = exp.origin if exp is not None else 0
         origin = ORIGINS[oi]
         fd = {}
         for n, v in fields:
@@ -455,10 +515,19 @@ def run(tape, prop, tier):
             ctx = _ssl.SSLContext(_ssl.PROTOCOL_TLS_CLIENT)
             ctx.check_hostname = False
             ctx.verify_mode = _ssl.CERT_NONE
-            pool = ConnectionPool(
-                resolver=resolver,
-                connection_factory=functools.partial(Connection, timeout=30.0, connect_timeout=30.0),
-                ssl_connection_factory=functools.partial(SSLConnection, timeout=30.0, connect_timeout=30.0, ssl_context=ctx))
+            if use_proxy:
+                net.add_host('proxy.test', '10.0.2.99')
+                net.listen('10.0.2.99', 3128, lambda conn: _ProxyHandler(h, conn))
+                pool = HTTPProxyConnectionPool(
+                    ('proxy.test', 3128), resolver=resolver, ssl_context=ctx,
+                    authentication=('pu', 'pp') if tape.chance(1, 3, 'proxy.auth') else None,
+                    connection_factory=functools.partial(Connection, timeout=30.0, connect_timeout=30.0),
+                    ssl_connection_factory=functools.partial(SSLConnection, timeout=30.0, connect_timeout=30.0, ssl_context=ctx))
+            else:
+                pool = ConnectionPool(
+                    resolver=resolver,
+                    connection_factory=functools.partial(Connection, timeout=30.0, connect_timeout=30.0),
+                    ssl_connection_factory=functools.partial(SSLConnection, timeout=30.0, connect_timeout=30.0, ssl_context=ctx))
             http_client = HTTPClient(connection_pool=pool)
 
             def request_factory(*a, **k):
